@@ -36,6 +36,8 @@ def execute(case):
                     if isinstance(p, Fiber):
                         nar(p)
             nar(t.getRoot())
+        for rid, f_ in zip(IDS[:depth], case.get("tfmts") or []):
+            t.setFormat(rid, f_)              # what the TENSOR declares for its own iteration: the footprint specification is separate from it
         out["pre"] = proj.proj_tensor(t, oids)
         fm = Format(t, spec)
         for q in case["queries"]:
